@@ -11,7 +11,8 @@ import collections, json, os, shutil, sys
 HERE = os.path.dirname(os.path.dirname(os.path.abspath(__file__)))
 sys.path.insert(0, HERE)
 from vf import runner  # noqa: E402
-SKIP_CLAUSES = {"hash-seed-and-call-order", "cold-start-interleavings", "free-running-threads", "long-history", "atheris-totality"}
+SKIP_CLAUSES = {"hash-seed-and-call-order", "cold-start-interleavings", "free-running-threads", "long-history", "atheris-totality", "long-running-service",
+                "revisit-after-many", "atheris-garbage"}
 groups = collections.defaultdict(list)
 for pid in sorted(os.listdir(os.path.join(HERE, "replays"))):
     d = os.path.join(HERE, "replays", pid)
